@@ -3,7 +3,9 @@
 From Sakura.Model Require Import Base Cursor Length LexCore.
 From Sakura.Model Require Expr.
 From Sakura.Spec Require Import LenSpec.
-From Sakura.Proofs Require Import LengthP LayoutP LenBoundaryP.
+From Sakura.Model Require Import Event Song Token RunCore.
+From Sakura.Spec Require NoteSem.
+From Sakura.Proofs Require Import LengthP LayoutP TimeP NoteSimDefs LenBoundaryP.
 
 (* For every well-formed expression of the grammar  [%]?[-]?digits? dots? ((^|+) part)*,
    every time base and every default length, the reader returns the documented tick count. *)
@@ -121,6 +123,69 @@ Example C04_bang_example :
   read_arg_int_array 96 (40 :: print_bangs [ex_e; (mkAtom false false [2] 1, [])] ++ 41 :: [99]) 0 = Ok ([10 + 144 + 84; 288], [99], 0).
 Proof. repeat split; vm_compute; reflexivity. Qed.
 
+(* ---- lengths inside the note language: C04_token_boundary composed with C04_denotes ----
+   The three readers of the note language that take a length: `l` (read_length), `r` (read_rest) and the lettered notes
+   (read_note).  Each has its own characters directly after the command letter, which a length must not start with:
+     l   '.'            ("l." + word is the reservation syntax l.onNote(..): a length starting with '.' loses that dot,
+                         and a word directly after it, to that test - C04_l_dot_refuted)
+     r   '*' '-'        ("r-4" is a backward rest)
+     c   '+' '#' '-' '*' (accidentals / natural: "c-4" is c flat, 4)
+   Reading `print e ++ r` yields the token carrying the text of e and the cursor at r (after blanks / comments for r);
+   executing it moves the time pointer by denote tb d e, d being the track's default length (for `l`: sets the default to
+   denote tb tb e).  The execution half is proved for rest and `l` in ANY state with a current track, for the lettered
+   note in the states of the C03 simulation (R s q: nothing reserved by onNote/onTime, no tie pending, no chord open). *)
+Theorem C04_in_program_rest : forall (ec : list tok -> res song -> res song) (e : expr) (r : list Z) (ln : Z) (s : song),
+  expr_wf e = true -> len_boundary r = true ->
+  eq_char (print e ++ r) 42 = false -> eq_char (print e ++ r) 45 = false -> cur_valid s ->
+  let '(t, r', _) := read_rest (print e ++ r) ln in
+  t = TRest 1 (print e) /\ r' = fst (skip_space r ln) /\
+  exists s', step_song ec t s = Ok s' /\
+    tr_timepos (cur_track s') = tr_timepos (cur_track s) + denote (s_timebase s) (tr_length (cur_track s)) e.
+Proof. exact rest_in_program. Qed.
+
+Theorem C04_in_program_length : forall (ec : list tok -> res song -> res song) (tb : Z) (e : expr) (r : list Z) (ln : Z) (s : song),
+  expr_wf e = true -> len_boundary r = true -> eq_char (print e ++ r) 46 = false -> cur_valid s ->
+  exists t, read_length tb (print e ++ r) ln = Ok (Some t, r, ln) /\ t = TLength (print e) /\
+  exists s', step_song ec t s = Ok s' /\ tr_length (cur_track s') = denote (s_timebase s) (s_timebase s) e /\
+             tr_timepos (cur_track s') = tr_timepos (cur_track s).
+Proof. exact length_in_program. Qed.
+
+(* note_boundary r ln (LayoutP.v) = boundary of the length and none of the optional continuations of a note (',' '&' "/*") *)
+Theorem C04_in_program_note : forall (ec : list tok -> res song -> res song) (z : Z) (fl : list Z) (e : expr) (r : list Z) (ln : Z)
+    (s : song) (q : NoteSem.perf),
+  forallb is_flag_char fl = true -> expr_wf e = true -> note_boundary r ln = true ->
+  is_flag_char (peek0 (print e ++ r)) = false -> R s q ->
+  exists t, read_note z (fl ++ print e ++ r) ln = (t, r, ln) /\ tok_length t = print e /\
+  exists s', step_song ec t s = Ok s' /\
+    tr_timepos (cur_track s') = tr_timepos (cur_track s) + denote (s_timebase s) (tr_length (cur_track s)) e.
+Proof. exact note_in_program. Qed.
+
+(* the length field of a lettered note is the expression whatever follows the boundary (gate, velocity, timing, octave, '&') *)
+Theorem C04_in_program_note_field : forall (z : Z) (fl : list Z) (e : expr) (r : list Z) (ln : Z),
+  forallb is_flag_char fl = true -> expr_wf e = true -> len_boundary r = true ->
+  is_flag_char (peek0 (print e ++ r)) = false ->
+  tok_length (fst (fst (read_note z (fl ++ print e ++ r) ln))) = print e.
+Proof. exact read_note_len. Qed.
+
+(* non-vacuity: "r%10^4.+8.. c", "l%10^4.+8.. c", "c+%10^4.+8..,50 d" *)
+Example C04_in_program_example :
+  read_rest (print ex_e ++ [32; 99]) 0 = (TRest 1 (print ex_e), [99], 0) /\
+  (exists s', step_song (fun _ r => r) (TRest 1 (print ex_e)) song_new = Ok s' /\ tr_timepos (cur_track s') = 10 + 144 + 84) /\
+  read_length 96 (print ex_e ++ [32; 99]) 0 = Ok (Some (TLength (print ex_e)), [99], 0) /\
+  tok_length (fst (fst (read_note 99 ([43] ++ print ex_e ++ [44; 53; 48; 32; 100]) 0))) = print ex_e /\
+  cur_valid song_new.
+Proof.
+  split; [vm_compute; reflexivity|]. split; [eexists; split; vm_compute; reflexivity|].
+  split; [vm_compute; reflexivity|]. split; [vm_compute; reflexivity|]. unfold cur_valid. vm_compute. lia.
+Qed.
+(* outside the proviso: "l. c" leaves the default length alone (the dot is taken for the start of ".onNote"), "l.." is
+   one dot, and in "l.c d" the c disappears with the dot *)
+Example C04_l_dot_refuted :
+  read_length 96 [46; 32; 99] 0 = Ok (Some (TLength []), [99], 0) /\
+  read_length 96 [46; 46; 32; 99] 0 = Ok (Some (TLength [46]), [99], 0) /\
+  read_length 96 [46; 99; 32; 100] 0 = Ok (Some (TLength []), [100], 0).
+Proof. repeat split; vm_compute; reflexivity. Qed.
+
 Print Assumptions C04_denotes.
 Print Assumptions C04_additive.
 Print Assumptions C04_literals.
@@ -132,3 +197,7 @@ Print Assumptions C04_token_prefix.
 Print Assumptions C04_bang.
 Print Assumptions C04_bang_blanks.
 Print Assumptions C04_bang_array.
+Print Assumptions C04_in_program_rest.
+Print Assumptions C04_in_program_length.
+Print Assumptions C04_in_program_note.
+Print Assumptions C04_in_program_note_field.
